@@ -398,6 +398,19 @@ Definition api_session (cmd : bytes) (args : list cbor) : option cbor :=
             else ctext "fail:the next message in sequence was refused")
     | _ => None
     end
+  (* sessions established in one process: [[engagement index, SKReader, EReaderKeyBytes] ..]: no two share a session key or
+     an ephemeral reader key (each session's first message uses IV reader || 1: a shared key is a shared (key, IV) pair) *)
+  else if bytes_eqb cmd (s "c07.spec_fresh_keys") then
+    match args with
+    | [CArray l] =>
+      let keys := map (fun x => match x with CArray [_; CBytes k; _] => k | _ => [] end) l in
+      let erks := map (fun x => match x with CArray [_; _; CBytes k] => k | _ => [] end) l in
+      Some (if negb (nodup_b keys) then ctext "fail:two sessions share a session key: their first messages share key and IV"
+            else if negb (nodup_b erks) then ctext "fail:two sessions were given the same ephemeral reader key"
+            else if (N.of_nat (length l) <? 2) then ctext "fail:sessions were not established"
+            else ctext "ok")
+    | _ => None
+    end
   else if bytes_eqb cmd (s "c07.spec_emissions") then
     match args with
     | CArray ems :: _ =>
